@@ -1,6 +1,6 @@
 ---------------------------- MODULE Writer ----------------------------
 (* Property C19: incremental writing through a trajectory file object.
-   The first write fixes the schema (atom count, presence of cell / time); a later write with another
+   The first write fixes the schema (atom count, presence of cell / time / further per-frame fields); a later write with another
    schema is a ragged write and must be refused leaving the accepted frames intact; after close the
    file holds exactly the accepted frames (one-shot equivalence); after write+flush a crash loses
    nothing (durability).  Frames are ids 0,1,2,...; `acc` = accepted, `dur` = known durable. *)
@@ -12,11 +12,13 @@ CONSTANTS MaxFrames,   \* total frames offered to the writer in one behaviour
           TimeOpt,     \* time information may be given or omitted per write
           CanAppend,   \* the file can be closed and re-opened for appending (HDF5 mode 'a')
           Crashes,     \* explore crash points (only meaningful for the live-output formats)
+          ExtraOpt,    \* further optional per-frame fields may be given or omitted per write (HDF5: velocities, alchemicalLambda, ...)
           Dev
-Schemas == [natoms : {1, 2}, cell : IF CellOpt THEN BOOLEAN ELSE {TRUE}, time : IF TimeOpt THEN BOOLEAN ELSE {TRUE}]
+Schemas == [natoms : {1, 2}, cell : IF CellOpt THEN BOOLEAN ELSE {TRUE}, time : IF TimeOpt THEN BOOLEAN ELSE {TRUE},
+            extra : IF ExtraOpt THEN BOOLEAN ELSE {FALSE}]
 VARIABLES schema, acc, dur, status, nextId, hist, loaded, rag
 vars == <<schema, acc, dur, status, nextId, hist, loaded, rag>>
-NoSchema == [natoms |-> 0, cell |-> FALSE, time |-> FALSE]
+NoSchema == [natoms |-> 0, cell |-> FALSE, time |-> FALSE, extra |-> FALSE]
 IsPrefix(s, t) == Len(s) <= Len(t) /\ \A i \in 1..Len(s) : s[i] = t[i]
 Log(op, k, s, ok) == hist' = Append(hist, [op |-> op, k |-> k, s |-> s, ok |-> ok])
 Init == /\ schema = NoSchema /\ acc = <<>> /\ dur = <<>> /\ status = "open" /\ nextId = 0
